@@ -133,6 +133,11 @@ def collect_events(rep: Report, tier: str, wd, pool: Pool, gen_cases, extra_sour
         srcs += [{"id": f"sn:{i}", "src": s, "mode": m, "optimize": o} for i, (m, s) in enumerate(SNIPPETS) for o in (0, 2)]
         if extra_sources:
             srcs += extra_sources.get(v, [])
+        if tier == "thorough":
+            if not hasattr(rep, "_hypo"):
+                rep._hypo = corpus.hypothesmith_sources(1500, wd)
+                rep.cov["hypothesmith_programs"] = len(rep._hypo)
+            srcs += [dict(s_, mode="exec") for s_ in rep._hypo]
         for ch in chunks(srcs, 300):
             k += 1
             f = str(wd / f"src-{v}-{k}.ndjson")
